@@ -49,3 +49,45 @@ Qed.
 Theorem dedupe_tool_real_bad_options fields d input :
   parse_key_spec fields = None -> dedupe_tool_real fields d input = ToolBadOptions.
 Proof. intros H. unfold dedupe_tool_real. now rewrite H. Qed.
+
+(* ---- from keys to line content: which earlier lines make the complete tool drop a line ---- *)
+
+(* under a canonical key spec the tool's key is the seeded hash fold over the cut-selected pieces *)
+Lemma dedupe_key_is_fold l rs d : canonical rs ->
+  dedupe_key l rs d = Some (hash_fold dedupe_field_seed (spec_pieces d l rs)).
+Proof.
+  intros C. pose proof (key_of_spec_proof dedupe_field_seed l rs d C) as K.
+  unfold dedupe_key. destruct rs as [|[b e] [|r rs']]; try exact K.
+  - destruct b; try exact K. destruct (Z.eqb_spec e kInfiniteEnd) as [->|Ne]; [|exact K].
+    destruct (dedupe_shortcut_consistent_proof l d) as [A B]. unfold dedupe_key in A. rewrite Z.eqb_refl in A.
+    rewrite A. exact K.
+  - destruct b; exact K.
+Qed.
+
+Lemma key_fn_is_fold l rs d : canonical rs ->
+  key_fn rs d l = Z.to_N (hash_fold dedupe_field_seed (spec_pieces d l rs)).
+Proof. intros C. unfold key_fn, real_key. now rewrite (dedupe_key_is_fold l rs d C). Qed.
+
+(* A line is dropped iff an earlier line has the same cut-selected fields -- for lines that contain every
+   selected field, and provided the 64-bit hash does not collide on the selections that occur in the input
+   (the documented permitted deviation, as an explicit hypothesis). *)
+Theorem dropped_iff_same_selected_fields rs d (pre : list (list Z)) (l : list Z) :
+  canonical rs ->
+  (forall x, In x (l :: pre) -> contains_all (Z.of_nat (length (split_fields d x))) rs) ->
+  (forall x y, In x (l :: pre) -> In y (l :: pre) ->
+     Z.to_N (hash_fold dedupe_field_seed (spec_pieces d x rs)) = Z.to_N (hash_fold dedupe_field_seed (spec_pieces d y rs)) ->
+     spec_pieces d x rs = spec_pieces d y rs) ->
+  (mem (key_fn rs d l) (map (key_fn rs d) pre) = true <->
+   exists x, In x pre /\ select (split_fields d x) rs = select (split_fields d l) rs).
+Proof.
+  intros C Hall Hinj.
+  assert (Hsel : forall x, In x (l :: pre) ->
+            (spec_pieces d x rs = spec_pieces d l rs <-> select (split_fields d x) rs = select (split_fields d l) rs)).
+  { intros x Hx. rewrite <- (key_iff_selected_proof d x l rs C (Hall x Hx) (Hall l (or_introl eq_refl))).
+    rewrite !range_fields_spec_proof by exact C. split; [intros ->; reflexivity|intros H; now injection H]. }
+  rewrite mem_In, in_map_iff. split.
+  - intros (x & E & Hx). exists x. split; auto. apply Hsel; [now right|].
+    apply Hinj; [now right|now left|]. rewrite <- !key_fn_is_fold by exact C. exact E.
+  - intros (x & Hx & E). exists x. split; auto. rewrite !key_fn_is_fold by exact C.
+    apply Hsel in E; [|now right]. now rewrite E.
+Qed.
